@@ -232,7 +232,9 @@ def P_C18 (nf : String → PRep) (mode client : String) (hasPayload pipelinedPay
         -- behind a byte pump the end of the service's connection is the end of the session, as it is directly
         if mode != "resolver" && mode != "bridge2" && routed.all (fun r => o.directClosed.contains r.target)
             && !routed.isEmpty then
-          (if o.exit == "0" then none else some ("exit-status-" ++ o.exit))
+          -- the service closed the connection: success, or an I/O error (connection reset when it
+          -- left input unread)
+          (if o.exit == "0" || o.exit == "closed-by-service" then none else some ("exit-status-" ++ o.exit))
         else
         if exps.any (·.afterAbort) then some "bridge-exits-after-service-abort" else
         match lastCls with
@@ -245,7 +247,10 @@ def P_C18 (nf : String → PRep) (mode client : String) (hasPayload pipelinedPay
           some (if pipelinedPayload then "upgrade-buffered-bytes-misrouted" else "upgraded-bytes-differ")
         else if o.upBridged.isSome && o.upBridged != o.upDirect then
           some (if pipelinedPayload then "upgrade-buffered-bytes-misrouted" else "upgraded-service-input-differs")
-        else if o.logsEqual == some false then some "service-saw-different-calls"
+        else if o.logsEqual == some false then
+          -- a oneway call after the service dropped its direct connection is executed only through the bridge
+          some (if exps.any (·.afterAbort) || routed.any (fun r => o.directClosed.contains r.target)
+                then "service-abort-not-propagated" else "service-saw-different-calls")
         else if o.exit != "0" then
           some (if upgradedSession && hasPayload then "upgraded-session-exit-" ++ o.exit
                 else if upgradedSession then "upgraded-session-exit-" ++ o.exit
